@@ -126,6 +126,7 @@ func c08cases(tier string) []c08case {
 }
 
 type world struct {
+	held, release    chan struct{} // overlap special: exchange A is parked in the transport
 	preambleFailure  string
 	preambleRequests int
 	backend          *Backend
@@ -140,7 +141,7 @@ func newWorld() *world {
 	w.hostname, _ = os.Hostname()
 	for i, ph := range []bool{false, true} {
 		f := forward.New(ph)
-		f.Transport = &http.Transport{MaxIdleConns: 1, IdleConnTimeout: time.Second}
+		f.Transport = &gateTransport{inner: &http.Transport{MaxIdleConns: 1, IdleConnTimeout: time.Second}, w: w}
 		bu := &url.URL{Scheme: "http", Host: w.backend.Addr}
 		w.proxies[i] = http.HandlerFunc(func(rw http.ResponseWriter, r *http.Request) {
 			r.URL = &url.URL{Scheme: bu.Scheme, Host: bu.Host, Path: "/backend-path-must-not-be-used"}
@@ -171,6 +172,95 @@ func (w *world) preamble() {
 			}
 			w.preambleRequests++
 		}
+	}
+}
+
+// gateTransport holds an exchange marked with X-Hold between the forwarder's rewriting and the moment the request
+// is written to the backend - where a request waits while a connection is being dialled.
+type gateTransport struct {
+	inner http.RoundTripper
+	w     *world
+}
+
+func (g *gateTransport) RoundTrip(r *http.Request) (*http.Response, error) {
+	if r.Header.Get("X-Hold") != "" && g.w.held != nil {
+		close(g.w.held)
+		<-g.w.release
+	}
+	return g.inner.RoundTrip(r)
+}
+
+// overlap: exchange A (plain, IPv4 peer) is held after it was rewritten; exchange B (TLS, IPv6 peer, other Host)
+// runs from start to finish; A is released. The backend must see, for EACH request, the forwarding headers of
+// that request's own incoming connection.
+func (w *world) overlap(rep *lib.Report) {
+	type side struct {
+		peer, host string
+		tls        bool
+		ip         string
+		proto      string
+		port       string
+	}
+	a := side{"10.1.1.1:1111", "slow.example", false, "10.1.1.1", "http", "80"}
+	b := side{"[2001:db8::2]:2222", "fast.example:8443", true, "2001:db8::2", "https", "8443"}
+	mkReq := func(s side, path string, hold bool) *http.Request {
+		hs := [][2]string{{"Accept", "*/*"}}
+		if hold {
+			hs = append(hs, [2]string{"X-Hold", "1"})
+		}
+		raw := strings.Replace(lib.RawRequest("GET", path, hs, nil, 0), "Host: client.example\r\n", "Host: "+s.host+"\r\n", 1)
+		req, _ := lib.ParseRequest(raw)
+		req.RemoteAddr = s.peer
+		if s.tls {
+			req.TLS = &tls.ConnectionState{}
+		}
+		return req
+	}
+	check := func(pi int, which string, s side, got []byte) {
+		what := map[string]any{"engine": "enum", "part": "c08", "case": "overlap"}
+		if got == nil {
+			rep.Violate("C08:backend-not-reached:overlapping-exchanges", which, what)
+			return
+		}
+		wr, err := parseWire(got)
+		if err != nil {
+			rep.Violate("C08:backend-got-malformed-request", fmt.Sprintf("overlap %s: %v", which, err), what)
+			return
+		}
+		xff := strings.Join(wr.headers["X-Forwarded-For"], ", ")
+		obs := fmt.Sprintf("X-Forwarded-For=%q X-Real-Ip=%q X-Forwarded-Proto=%q X-Forwarded-Host=%q X-Forwarded-Port=%q", xff, wr.headers.Get("X-Real-Ip"), wr.headers.Get("X-Forwarded-Proto"), wr.headers.Get("X-Forwarded-Host"), wr.headers.Get("X-Forwarded-Port"))
+		if xff != s.ip || wr.headers.Get("X-Real-Ip") != s.ip || wr.headers.Get("X-Forwarded-Proto") != s.proto || wr.headers.Get("X-Forwarded-Host") != s.host || wr.headers.Get("X-Forwarded-Port") != s.port {
+			rep.Violate("C08:forwarding-header:overlapping-exchanges", fmt.Sprintf("passHost=%v, exchange %s (peer %s, Host %s, TLS %v) overlapped another exchange; backend received %s", pi == 1, which, s.peer, s.host, s.tls, obs), what)
+			return
+		}
+		rep.Count("overlapping_exchanges_checked")
+	}
+	for pi := range w.proxies {
+		w.backend.Drain()
+		w.backend.Play([]step{{stepWrite, backendResponse}})
+		w.held, w.release = make(chan struct{}), make(chan struct{})
+		doneA := make(chan *lib.Recorder, 1)
+		go func() { doneA <- lib.Serve(w.proxies[pi], mkReq(a, "/slow", true)) }()
+		select {
+		case <-w.held:
+		case <-time.After(20 * time.Second):
+			rep.DistrustF("overlap special: exchange A never reached the transport")
+			close(w.release)
+			continue
+		}
+		recB := lib.Serve(w.proxies[pi], mkReq(b, "/fast", false))
+		gotB := w.backend.Received(5 * time.Second)
+		close(w.release)
+		recA := <-doneA
+		gotA := w.backend.Received(5 * time.Second)
+		w.held = nil
+		rep.Evaluations += 2
+		if recA.Panic != nil || recB.Panic != nil || recA.Code != 200 || recB.Code != 200 {
+			rep.Violate("C08:exchange-failed", fmt.Sprintf("overlapping exchanges: A status %d panic %v, B status %d panic %v", recA.Code, recA.Panic, recB.Code, recB.Panic), map[string]any{"engine": "enum", "part": "c08", "case": "overlap"})
+			continue
+		}
+		check(pi, "B", b, gotB)
+		check(pi, "A", a, gotA)
 	}
 }
 
@@ -402,7 +492,7 @@ func RunC08(tier string, sh lib.Shard, rep *lib.Report) {
 	rep.Bounds["cases"] = len(cases)
 	rep.Bounds["request_targets"] = len(targets())
 	rep.Bounds["header_cases"] = len(headerCases())
-	rep.Rule = "exhaustive: request targets = all paths of <= 3 segments over 11 segment forms x 6 query forms (x pass-host), and header cases (hop-by-hop alone / named in Connection, end-to-end multi-valued, every subset of upstream-supplied forwarding headers, Connection naming each of them) x 3 targets x Host {plain, with port, IPv6 literal} x peer {IPv4, IPv6, IPv6 zone} x TLS x pass-host; request parsed by http.ReadRequest, real forward.New proxy (two long-lived forwarders that first serve Host-less, empty-Host and asterisk-form requests, then every case), raw TCP backend recording the exact bytes; non-trivial = targets with escapes + header cases naming headers in Connection"
+	rep.Rule = "exhaustive: request targets = all paths of <= 3 segments over 11 segment forms x 6 query forms (x pass-host), and header cases (hop-by-hop alone / named in Connection, end-to-end multi-valued, every subset of upstream-supplied forwarding headers, Connection naming each of them) x 3 targets x Host {plain, with port, IPv6 literal} x peer {IPv4, IPv6, IPv6 zone} x TLS x pass-host; request parsed by http.ReadRequest, real forward.New proxy (two long-lived forwarders that first serve Host-less, empty-Host and asterisk-form requests, then every case; plus two exchanges overlapping inside the transport), raw TCP backend recording the exact bytes; non-trivial = targets with escapes + header cases naming headers in Connection"
 	rep.Assume("net/http's transport may add Accept-Encoding/User-Agent handling of its own; only headers the client sent and the forwarding headers are compared", "Upgrade (protocol switching) is outside the alphabet")
 	rep.Require("targets_with_escapes", "cases_with_connection_named_headers", "hop_by_hop_headers_checked", "end_to_end_headers_checked", "forwarding_header_sets_checked")
 	w := newWorld()
@@ -410,6 +500,10 @@ func RunC08(tier string, sh lib.Shard, rep *lib.Report) {
 	rep.Add("preamble_requests_without_host_or_in_asterisk_form", w.preambleRequests)
 	if w.preambleFailure != "" {
 		rep.Violate("C08:odd-request-not-forwarded", w.preambleFailure, map[string]any{"engine": "enum", "part": "c08", "case": "preamble"})
+	}
+	if sh.I == 0 {
+		w.overlap(rep)
+		rep.Require("overlapping_exchanges_checked")
 	}
 	for i, c := range cases {
 		if !sh.Mine(i) {
@@ -430,6 +524,14 @@ func ReplayC08(rp map[string]any) (bool, string) {
 	want, _ := rp["case"].(string)
 	w := newWorld()
 	defer w.backend.Close()
+	if want == "overlap" {
+		rep := lib.NewReport("C08", "replay")
+		w.overlap(rep)
+		if len(rep.Violations) > 0 {
+			return true, rep.Violations[0].Key + " :: " + rep.Violations[0].Detail
+		}
+		return false, "each overlapping exchange carried its own forwarding headers"
+	}
 	if want == "preamble" {
 		return w.preambleFailure != "", "C08:odd-request-not-forwarded :: " + w.preambleFailure
 	}
